@@ -298,6 +298,11 @@ struct Corpus {
         P("name:formal", "func w(val " + n + ") is return " + n + " + " + n + "\nproc main() is 0(w(21))\n");
         P("name:array", "array " + n + "[3];\nproc main() is { " + n + "[2] := 8; 0(" + n + "[2]) }\n");
       }
+      // F8: output streams: 0..255 standard output, 256*n.. file simout<n mod 8>; values above 255 are truncated to a byte
+      for (const char *st : {"0", "1", "255", "256", "257", "511", "512", "767", "1024", "1791", "1792", "2047", "2048", "2304", "65536", "70000"}) {
+        P("streams", std::string("proc main() is { 1('a', ") + st + "); 1(353, " + st + "); 1('c', 0); 1('d', " + st + "); 0(3) }\n");
+        P("streams", std::string("val s = ") + st + ";\nproc w(val c, val t) is 1(c, t)\nproc main() is var i; { i := 0; while i < 3 do { w('x' + i, s); i := i + 1 }; w('!', 0); 0(i) }\n");
+      }
       // F9: large frames (stack offsets that need prefixes) and many formals; every local and formal is written and read back
       for (int nl : {1, 14, 15, 16, 17, 40, 260}) for (int nf : {0, 1, 9, 10, 17}) {
         std::string s = "func big(";
